@@ -1,4 +1,5 @@
 import Cvss.Spec.Metrics
+import Cvss.Spec.OrderV2
 /-!
 # Spec: effective values (C10) and severity orders (C12)
 
@@ -53,18 +54,7 @@ def rankIn (order : List String) (v : Bytes) : Option Nat :=
   | some i => some (order.length - i)
   | none => none
 
-/-- v2.0 (guide §2): AV L<A<N, AC H<M<L, Au M<S<N, C/I/A N<P<C, E U<POC<F<H (ND as H), RL OF<TF<W<U (ND as U),
-    RC UC<UR<C (ND as C) -/
-def V2.rank (a v : Bytes) : Option Nat :=
-  let v' (d : String) := if v = b "ND" then b d else v
-  if a = b "AV" then rankIn ["N", "A", "L"] v
-  else if a = b "AC" then rankIn ["L", "M", "H"] v
-  else if a = b "Au" then rankIn ["N", "S", "M"] v
-  else if a = b "C" ∨ a = b "I" ∨ a = b "A" then rankIn ["C", "P", "N"] v
-  else if a = b "E" then rankIn ["H", "F", "POC", "U"] (v' "H")
-  else if a = b "RL" then rankIn ["U", "W", "TF", "OF"] (v' "U")
-  else if a = b "RC" then rankIn ["C", "UR", "UC"] (v' "C")
-  else none
+/-! v2.0: the severity order of the Base and Temporal metric values is `Spec.V2.rank` in `Spec/OrderV2.lean`. -/
 
 /-- v3.x: AV N>A>L>P, AC L>H, PR N>L>H, UI N>R, S C>U, C/I/A H>L>N, E H>F>P>U (X as H), RL U>W>T>O (X as U),
     RC C>R>U (X as C), CR/IR/AR H>M>L (X as M).  Modified metrics: same order as their base metric; `X` is not
